@@ -12,6 +12,7 @@ CPP = {1: ["#ifdef FOO"], 2: ["#ifndef FOO"], 3: ["#if defined(A) && B > 2"], 4:
        # text after the directive, blanks after the '#'
        19: ["#endif /* FOO */"], 20: ["#else // not FOO"], 21: ["#  ifdef FOO"], 22: ["# define GUARD 1"], 23: ["#endif FOO"],
        24: ['#   include "decl.h"'], 25: ["#define EMPTY"], 26: ["#if 0"], 27: ["#elif defined(X) /* c */"]}
+AFTER_BREAK = "! after the break"
 GARB = {1: ["@@", "x", "y"], 2: ["1", "=", "=", "2"], 3: ["then", "end", "do"], 4: ["@@", "x", "y  ! a trailing comment"], 5: ["then", "end", "do ! it's"],
         # statements cut short: an assignment without its right-hand side, a call without a name
         6: ["total", "(", "1 ) ="], 7: ["call", "(", "x )"]}
@@ -159,7 +160,7 @@ def layout(out, ed):
             # continued directly after the first character literal, with a trailing comment on that line
             head, tail = split_after_string(s)
             phys.append((i, ind + head + " &  " + aftstr[i][1]))
-            phys.append((i, ind + "    " + tail))
+            phys.append((i, ind + "    " + tail + "  " + (trail[i][1] if i in trail else AFTER_BREAK)))
         elif i in strcont:
             # the comment line sits between the two halves of a continued character literal (F2008 3.3.2.4)
             head, tail = split_in_string(s)
@@ -271,6 +272,8 @@ def expected_leaves(beh, stmts):
             e = beh["ed"][idx - 1]
             if e["t"] == "cmt":
                 exp.append(("c", CMT[e["b"]], e["a"], e["b"]))
+                if e["a"] == 5 and not any(x["t"] == "cmt" and x["a"] == 2 and x["pos"] == e["pos"] for x in beh["ed"]):
+                    exp.append(("c", AFTER_BREAK, 5, 1))      # place 5 comes with a second trailing comment on the next line
             else:
                 exp.append(("p", cpp_norm("\n".join(CPP[e["a"]])), e["a"]))
     return exp
